@@ -112,6 +112,75 @@ def giant_qcow2(rng, dense, cb=16, size=64 << 40):
     return Giant(f"qcow2-cb{cb}", [vf], lambda: QCow2(vf), size, probes, meta, c0=8192 + 3 * (slot + 1024), note={"cluster_bits": cb, "tables": len(tables), "l1_bytes": l1_bytes})
 
 
+def _q2_sparse(cb, size, tables, fid, backing_name=b""):
+    """A QCOW2 image given by its L2 tables: tables = {l1 index: {index in table: host cluster of a data cluster}} -> (VirtualFile, metadata bytes)."""
+    cs = 1 << cb
+    l2n = cs // 8
+    nl1 = -(-(size // cs) // l2n)
+    l1_off = 3 * cs
+    tab_base = (1 << 41) // cs + 11 + fid * 4096
+    tpos = {t: tab_base + 3 * k for k, t in enumerate(sorted(tables))}
+
+    def sparse_table(ents):
+        def gen(off, n, ents=ents):
+            out = bytearray(n)
+            first, last = off // 8, (off + n - 1) // 8
+            for i, v in ents.items():
+                if first <= i <= last:
+                    b = struct.pack(">Q", v)
+                    for k in range(8):
+                        p = i * 8 + k - off
+                        if 0 <= p < n:
+                            out[p] = b[k]
+            return bytes(out)
+        return gen
+    ext = [(l1_off, nl1 * 8, "fn", sparse_table({t: (tpos[t] * cs) | enc_qcow2.COPIED for t in tables}))]
+    for t, ents in tables.items():
+        ext.append((tpos[t] * cs, cs, "fn", sparse_table({i: (h * cs) | enc_qcow2.COPIED for i, h in ents.items()})))
+        for h in ents.values():
+            ext.append((h * cs, cs, "pat", fid))
+    hdr = enc_qcow2.header(version=3, cluster_bits=cb, size=size, l1_size=nl1, l1_offset=l1_off, refcount_offset=cs, header_length=104,
+                           backing_name=backing_name, backing_offset=1024)
+    ext.append((0, len(hdr), "bytes", hdr))
+    if backing_name:
+        ext.append((1024, len(backing_name), "bytes", backing_name))
+    return VirtualFile(max(e[0] + e[1] for e in ext), ext), len(hdr) + nl1 * 8 + len(tables) * cs
+
+
+def giant_qcow2_backing(rng, dense):
+    """A 40 TiB overlay over a 40 TiB backing image, a hundred L2 tables in use in each; requests visit them in turn (what they
+    find is in the backing image).  Each image's tables are read once - what one image keeps must not push out what the other keeps."""
+    from dissect.hypervisor.disk.qcow2 import QCow2
+    _d = DR(rng)
+    cb, size = 16, 40 << 40
+    cs = 1 << cb
+    l2n = cs // 8
+    nt = size // cs // l2n
+    hot = sorted(rng.sample(range(1, nt - 1), 100))
+    data0 = (1 << 50) // cs
+    over = {t: {7: data0 + 2 * k} for k, t in enumerate(hot)}
+    base = {t: {100 + j: data0 + 7 * k + j for j in range(5)} for k, t in enumerate(hot)}
+    if dense:
+        for k, t in enumerate(x for x in (_d.randrange(1, nt - 1) for _ in range(60)) if x not in over):
+            over[t] = {9: data0 + 4000 + k}
+            base[t] = {11: data0 + 8000 + k}
+    ovf, ometa = _q2_sparse(cb, size, over, 0, backing_name=b"base.qcow2")
+    bvf, bmeta = _q2_sparse(cb, size, base, 1)
+    probes = []
+    for rnd in range(5):
+        for t in hot:
+            c = t * l2n + 100 + rnd
+            off = rng.choice([0, 512, cs - 1024])
+            probes.append((c * cs + off, 1024, patterns.pat(1, base[t][100 + rnd] * cs + off, 1024)))
+    probes.append(((hot[0] * l2n + 7) * cs, 4096, patterns.pat(0, over[hot[0]][7] * cs, 4096)))
+
+    def opener():
+        bvf.seek(0)
+        ovf.seek(0)
+        return QCow2(ovf, backing_file=QCow2(bvf))
+    return Giant("qcow2-overlay-and-backing", [ovf, bvf], opener, size, probes, ometa + bmeta, c0=64 << 10, note={"tables_in_use_per_layer": len(hot)})
+
+
 # ------------------------------------------------------------------------------------------------ VMDK
 def giant_vmdk_se(rng, dense):
     _d = DR(rng)
@@ -515,8 +584,10 @@ def giant_vdi(rng, dense):
     from dissect.hypervisor.disk.vdi import VDI
     bs = 1 << 20
     nb = (2 << 40) // bs
-    picks = sorted({0, 1, nb // 2, nb - 1} | ({_d.randrange(nb) for _ in range(300)} - {nb // 3} if dense else set()))   # nb // 3 stays a hole (probed)
+    first = nb // 5      # the block stored first in the file follows a hole; one request crosses from the hole into it
+    picks = sorted({0, 1, nb // 2, nb - 1} | ({_d.randrange(nb) for _ in range(300)} - {nb // 3, first - 1, first, first + 1} if dense else set()))   # nb // 3 stays a hole (probed)
     pos = {b: (1 << 21) - 5 - 2 * k for k, b in enumerate(picks)}          # physical positions near 2^21 blocks (2 TiB into the file)
+    pos[first] = 0
     blocks_offset = 512
     data_offset = (blocks_offset + 4 * nb + 511) // 512 * 512
 
@@ -529,7 +600,7 @@ def giant_vdi(rng, dense):
                 if 0 <= q < n:
                     out[q] = v[j]
         return bytes(out)
-    hdr = enc_vdi.header(blocks_offset, data_offset, nb * bs, bs, nb, len(picks))
+    hdr = enc_vdi.header(blocks_offset, data_offset, nb * bs, bs, nb, len(pos))
     ext = [(0, len(hdr), "bytes", hdr), (blocks_offset, 4 * nb, "fn", map_gen)] + [(data_offset + p * bs, bs, "pat", 0) for p in pos.values()]
     vf = VirtualFile(max(e[0] + e[1] for e in ext), ext)
     probes = []
@@ -537,6 +608,7 @@ def giant_vdi(rng, dense):
         o = b * bs + rng.choice([0, 512, bs - 4096])
         probes.append((o, 4096, patterns.pat(0, data_offset + pos[b] * bs + (o - b * bs), 4096)))
     probes.append(((nb // 3) * bs + 99, 5000, bytes(5000)))
+    probes.append((first * bs - 4096, 20480, bytes(4096) + patterns.pat(0, data_offset, 16384)))
     meta = len(hdr) + 4 * nb
     return Giant("vdi", [vf], lambda: VDI(vf), nb * bs, probes, meta, note={"blocks": nb})
 
@@ -697,7 +769,9 @@ def giant_vhdx_diff(rng, dense):
         bitmaps[c] = bytes(bits)
     cblocks = [(enc_vhdx.ST_PARTIAL, cpos[b]) if b in cpos else (enc_vhdx.ST_NOT_PRESENT, None) for b in range(nb)]
     loc = {"parent_linkage": "{1}", "relative_path": ".\\base.vhdx", "absolute_win32_path": "C:\\nowhere\\base.vhdx"}
-    cvf, cinfo = enc_vhdx.build(cblocks, block_size=bs, sector_size=sector, disk_size=nb * bs, has_parent=True, locator=loc, bitmaps=bitmaps, file_id=0)
+    # the layers lay out their regions differently: the child's BAT and metadata lie beyond 4 GiB, the parent's where they usually are
+    cvf, cinfo = enc_vhdx.build(cblocks, block_size=bs, sector_size=sector, disk_size=nb * bs, has_parent=True, locator=loc, bitmaps=bitmaps, file_id=0,
+                                meta_mb=(5 << 10) + 3, bat_mb=(6 << 10) + 1)
     thin(cvf, cinfo, cpos.values(), 0)
     cvf.materialise(os.path.join(root, "child.avhdx"))
     counter = PathCounter()
@@ -735,7 +809,7 @@ def giant_vhdx_4k(rng, dense):
     return giant_vhdx(rng, dense, sector=4096)
 
 
-BUILDERS = [giant_qcow2, giant_qcow2_2m, giant_qcow2_4k, giant_vmdk_se, giant_vmdk_hosted, giant_vmdk_descriptor, giant_vmdk_flat, giant_vmdk_raw_handle, giant_vmdk_stream, giant_vdi_parent, giant_vhdx_diff, giant_vhdx, giant_vhdx_4k, giant_vhd, giant_vdi, giant_hds, giant_hds_v1]
+BUILDERS = [giant_qcow2, giant_qcow2_2m, giant_qcow2_4k, giant_qcow2_backing, giant_vmdk_se, giant_vmdk_hosted, giant_vmdk_descriptor, giant_vmdk_flat, giant_vmdk_raw_handle, giant_vmdk_stream, giant_vdi_parent, giant_vhdx_diff, giant_vhdx, giant_vhdx_4k, giant_vhd, giant_vdi, giant_hds, giant_hds_v1]
 
 
 def measure(g):
